@@ -82,6 +82,7 @@ Proof.
       apply Forall_cons_iff in Hokl1 as [Hlen _]. unfold is_byte in Hlen.
       rewrite zlen_cons in *. pose proof (zlen_nonneg l2) as Hl2nn.
       case_if; [exact I|].
+      case_if; [lia|].
       assert (Hd : drop (n + 2 + len) buf = drop len l2).
       { rewrite <- Hl2. rewrite drop_drop by lia. reflexivity. }
       assert (Hat : ext_at buf (mkExt b (take len l2)) (n + 2)).
@@ -106,6 +107,7 @@ Proof.
       * (* reserved id: the cursor stays right behind the id byte *)
         repeat split; try lia; auto. apply (mono_le _ _ n); [assumption|lia].
       * case_if; [exact I|].
+        case_if; [lia|].
         assert (Hd : drop (n + 1 + len) buf = drop len l1).
         { rewrite <- Hl1. rewrite drop_drop by lia. reflexivity. }
         assert (Hat : ext_at buf (mkExt (Z.shiftr b 4) (take len l1)) (n + 1)).
